@@ -104,23 +104,10 @@ theorem pushMapOps_spec (ext : Ext) (ops : SMapOps) (base : List Int) (l : Int)
 
 /-- what an accepted raw stream looks like, from either state of the flag: alternating, starting with a value
 exactly if a key is pending -/
-theorem pushMapOps_ok_alternating (ext : Ext) : ∀ (ops : SMapOps) (pd : Bool) (offs : List Int) (ks vs : B)
-    (r : List Int × B × B), pushMapOps ext pd offs ks vs ops = .ok r →
-    if pd then ∃ x rest, ops = .value x rest ∧ isAlternating rest = true else isAlternating ops = true
-  | .nil, pd, offs, ks, vs, r, h => by
-    obtain ⟨rfl, _⟩ := pushMapOps_nil_ok h; simp [isAlternating]
-  | .key k rest, pd, offs, ks, vs, r, h => by
-    obtain ⟨rfl, o', ks', _, _, h⟩ := pushMapOps_key_ok h
-    have := pushMapOps_ok_alternating ext rest true o' ks' vs r h
-    simp only [if_true] at this
-    obtain ⟨x, rest', rfl, ha⟩ := this
-    simpa [isAlternating] using ha
-  | .value x rest, pd, offs, ks, vs, r, h => by
-    obtain ⟨rfl, vs', _, h⟩ := pushMapOps_value_ok h
-    have := pushMapOps_ok_alternating ext rest false offs ks vs' r h
-    simp only [Bool.false_eq_true, if_false] at this
-    simp only [if_true]
-    exact ⟨x, rest, rfl, this⟩
+theorem pushMapOps_ok_alternating (ext : Ext) (ops : SMapOps) (pd : Bool) (offs : List Int) (ks vs : B)
+    (r : List Int × B × B) (h : pushMapOps ext pd offs ks vs ops = .ok r) :
+    if pd then ∃ x rest, ops = .value x rest ∧ isAlternating rest = true else isAlternating ops = true :=
+  Build.pushMapOps_ok_alternating ext ops pd offs ks vs r h
 
 /-- **A Map builder refuses every raw key/value call stream that does not alternate** (two keys in a row, a value
 without a key, a trailing key — exactly the streams `Spec.interpDT` calls `malformed`), whatever the keys and values
@@ -130,13 +117,7 @@ theorem map_refuses_non_alternating (ext : Ext) (p : String) (mm : MapMeta) (v :
     (ks vs : B) (ops : SMapOps) (hmal : isAlternating ops = false) (b' : B) :
     push ext (.map p mm v offs ks vs) (.mapRaw ops) ≠ .ok b' := by
   intro h
-  simp only [push, ctx_ok] at h
-  obtain ⟨v', _, h⟩ := (bind_ok _ _ _).1 h
-  obtain ⟨o1, _, h⟩ := (bind_ok _ _ _).1 h
-  obtain ⟨⟨o2, ks', vs'⟩, h3, _⟩ := (bind_ok _ _ _).1 h
-  have := pushMapOps_ok_alternating ext ops false _ _ _ _ h3
-  simp only [Bool.false_eq_true, if_false] at this
-  rw [this] at hmal; cases hmal
+  rw [push_map_raw_ok_alternating h] at hmal; cases hmal
 
 /-- a fresh builder is well formed, empty, and what `take` leaves behind is the builder itself -/
 theorem newDT_fresh (dt : DataType) (path : String) (nullable : Bool) (md : Metadata) (b : B)
